@@ -23,7 +23,7 @@ type c05Case struct {
 	AgeVsDur     int // 0: 1s before the duration ends, 1: exactly at it, 2: 1s after, 3: long after
 	NoRestarts   int // 0 default (unset), 1 zero, 2 one minute
 	LastRestart  int // 0 none, 1 well before the limit (long ago), 2 exactly noRestartsDuration ago, 3 recent (inside the window)
-	Pause        int // 0 none, 1 annotation, 2 replica-set condition
+	Pause        int // 0 none, 1 annotation, 2 replica-set condition, 3 annotation while the set carries Canary-Paused=False (it was paused and unpaused before: pause, unpause, pause again)
 	Unpaused     bool
 	Valid        int // 0 absent, 1 names this replica set, 2 names another
 	Failed       bool
@@ -129,6 +129,10 @@ func runC05(k c05Case) (vs []mon.V, nontrivial bool, err error) {
 		if k.Pause == 2 {
 			cond(edsv1.ConditionTypeCanaryPaused, now.Add(-10*time.Second), "CrashLoopBackOff")
 		}
+		if k.Pause == 3 {
+			cond(edsv1.ConditionTypeCanaryPaused, now.Add(-40*time.Second), "")
+			rs.Status.Conditions[len(rs.Status.Conditions)-1].Status = corev1.ConditionFalse
+		}
 		if k.Failed {
 			cond(edsv1.ConditionTypeCanaryFailed, now.Add(-10*time.Second), "CrashLoopBackOff")
 		}
@@ -137,7 +141,7 @@ func runC05(k c05Case) (vs []mon.V, nontrivial bool, err error) {
 		if x.Annotations == nil {
 			x.Annotations = map[string]string{}
 		}
-		if k.Pause == 1 {
+		if k.Pause == 1 || k.Pause == 3 {
 			x.Annotations[oracle.AnnCanaryPaused] = "true"
 		}
 		if k.Unpaused {
@@ -214,7 +218,7 @@ func c05Draw(rt *rapid.T) c05Case {
 	return c05Case{
 		Strategy: rapid.IntRange(0, 3).Draw(rt, "strategy"), AgeVsDur: rapid.IntRange(0, 3).Draw(rt, "age"),
 		NoRestarts: rapid.IntRange(0, 2).Draw(rt, "noRestarts"), LastRestart: rapid.IntRange(0, 3).Draw(rt, "lastRestart"),
-		Pause: rapid.IntRange(0, 2).Draw(rt, "pause"), Unpaused: rapid.Bool().Draw(rt, "unpaused"), Valid: rapid.IntRange(0, 2).Draw(rt, "valid"),
+		Pause: rapid.IntRange(0, 3).Draw(rt, "pause"), Unpaused: rapid.Bool().Draw(rt, "unpaused"), Valid: rapid.IntRange(0, 2).Draw(rt, "valid"),
 		Failed: rapid.Bool().Draw(rt, "failed"), ActiveExists: rapid.IntRange(0, 3).Draw(rt, "activeExists") != 0,
 		StatusCanary: rapid.IntRange(0, 2).Draw(rt, "statusCanary"), ActiveTerminating: rapid.IntRange(0, 3).Draw(rt, "activeTerminating") == 0,
 		PauseLands: rapid.IntRange(0, 3).Draw(rt, "pauseLands") == 0,
@@ -229,7 +233,7 @@ func c05Report(rec *evid.Rec, k c05Case, vs []mon.V) {
 
 // TestC05Lattice samples the promotion lattice (quick) ...
 func TestC05Lattice(t *testing.T) {
-	rec := evid.New("TestC05Lattice", "C05", "point of the promotion lattice {strategy absent/auto/manual/manual with a duration left over} x {age vs duration: -1s, 0, +1s, >>} x {noRestartsDuration default/0/1m} x {last restart none/old/at the limit/recent} x {pause none/annotation/condition} x unpaused x {canary-valid absent/this/other} x failed x {recorded active set exists / exists but is being deleted (finalizer) / is gone} x {status.canary unset / names the matching set / names a superseded one}, then one EDS reconcile judged by the promotion rule; non-trivial = canary strategy present and the active set exists (the rule, not a shortcut, decides); distinct by lattice point")
+	rec := evid.New("TestC05Lattice", "C05", "point of the promotion lattice {strategy absent/auto/manual/manual with a duration left over} x {age vs duration: -1s, 0, +1s, >>} x {noRestartsDuration default/0/1m} x {last restart none/old/at the limit/recent} x {pause none/annotation/condition/annotation on a set that carries Canary-Paused=False from an earlier pause} x unpaused x {canary-valid absent/this/other} x failed x {recorded active set exists / exists but is being deleted (finalizer) / is gone} x {status.canary unset / names the matching set / names a superseded one}, then one EDS reconcile judged by the promotion rule; non-trivial = canary strategy present and the active set exists (the rule, not a shortcut, decides); distinct by lattice point")
 	t.Cleanup(func() {
 		if !t.Failed() {
 			rec.Done()
@@ -255,7 +259,7 @@ func TestC05Lattice(t *testing.T) {
 
 // ... and TestC05Exhaustive enumerates it completely (thorough; sharded by the driver).
 func TestC05Exhaustive(t *testing.T) {
-	rec := evid.New("TestC05Exhaustive", "C05", "complete enumeration of the promotion lattice (48384 points, the recorded active set existing / terminating / gone, incl. the recorded status.canary: unset / the matching set / a stale other name), one EDS reconcile each; non-trivial = canary strategy present and the active set exists")
+	rec := evid.New("TestC05Exhaustive", "C05", "complete enumeration of the promotion lattice (69120 points, the recorded active set existing / terminating / gone, incl. the recorded status.canary: unset / the matching set / a stale other name), one EDS reconcile each; non-trivial = canary strategy present and the active set exists")
 	shard, shards := envInt("VERIF_SHARD", 0), envInt("VERIF_SHARDS", 1)
 	i := 0
 	failed := false
@@ -263,7 +267,7 @@ func TestC05Exhaustive(t *testing.T) {
 		for a := 0; a < 4; a++ {
 			for nr := 0; nr < 3; nr++ {
 				for lr := 0; lr < 4; lr++ {
-					for pz := 0; pz < 3; pz++ {
+					for pz := 0; pz < 4; pz++ {
 						for _, up := range []bool{false, true} {
 							for v := 0; v < 3; v++ {
 								for _, f := range []bool{false, true} {
